@@ -48,6 +48,23 @@ pub fn vf_map_take_while<A, B, F1: Fn(A) -> B, F2: Fn(&B) -> bool>(v: Vec<A>, f1
         forall|i: int| 0 <= i < r@.len() ==> call_ensures(f1, (v@[i],), #[trigger] r@[i]) && call_ensures(f2, (&r@[i],), true),
         r@.len() < v@.len() ==> exists|b: B| call_ensures(f1, (v@[r@.len() as int],), b) && #[trigger] call_ensures(f2, (&b,), false),
 { unimplemented!() }
+// v.into_iter().all(f)
+#[verifier::external_body]
+pub fn vf_all_owned<T, F: Fn(T) -> bool>(v: Vec<T>, f: F) -> (r: bool)
+    requires forall|i: int| 0 <= i < v@.len() ==> call_requires(f, (#[trigger] v@[i],)),
+    ensures
+        r ==> forall|i: int| 0 <= i < v@.len() ==> call_ensures(f, (#[trigger] v@[i],), true),
+        !r ==> exists|i: int| 0 <= i < v@.len() && call_ensures(f, (#[trigger] v@[i],), false),
+{ unimplemented!() }
+// a.iter().chain(b).collect::<HashSet<&T>>() : membership = element of a or of b (elements compared by view, as T's Hash/Eq do)
+pub struct VfRefSet<'a, T> { pub a: &'a [T], pub b: &'a [T] }
+pub fn vf_ref_set2<'a, T>(a: &'a [T], b: &'a [T]) -> (r: VfRefSet<'a, T>) ensures r.a@ == a@, r.b@ == b@ { VfRefSet { a, b } }
+// v.into_iter().filter_map(f).collect(): the Some-values of f in order
+#[verifier::external_body]
+pub fn vf_filter_map_owned<T, B, F: Fn(T) -> Option<B>>(v: Vec<T>, f: F) -> (r: Vec<B>)
+    requires forall|i: int| 0 <= i < v@.len() ==> call_requires(f, (#[trigger] v@[i],)),
+    ensures forall|j: int| 0 <= j < r@.len() ==> exists|i: int| 0 <= i < v@.len() && call_ensures(f, (v@[i],), Some(#[trigger] r@[j])),
+{ unimplemented!() }
 // a.into_iter().chain(b).collect::<Vec<_>>()
 #[verifier::external_body]
 pub fn vf_concat<T>(a: Vec<T>, b: Vec<T>) -> (r: Vec<T>) ensures r@ == a@ + b@ { unimplemented!() }
